@@ -120,7 +120,7 @@ class Extractor:
                         rest = a[len(nm):] if a.startswith(nm) else a[len(nm) + 3:]
                         m = '$%d%s' % (i, rest)
                 if m is None:
-                    if a.startswith('?'):
+                    if a.startswith('?') or a in getattr(self, 'opaque_ints', set()):
                         raise Unsupported('index expression %s' % self.f.unit.text(n))
                     m = a
                 # loop variables inside paths (t->m[k]->row) keep their '@' form textually
@@ -147,6 +147,8 @@ class Extractor:
             b2 = strip(kids(base)[0])
             if b2.get('kind') == 'DeclRefExpr' and b2['referencedDecl'].get('name') in self.pidx:
                 return '$%d->%s' % (self.pidx[b2['referencedDecl'].get('name')], base.get('name'))
+            if b2.get('kind') == 'DeclRefExpr':
+                return '%s->%s' % (b2['referencedDecl'].get('name'), base.get('name'))      # field of a local argument record
         return None
 
     def cell_ref(self, n, ienv):
@@ -217,6 +219,10 @@ class Extractor:
                 return True
             if x.get('kind') in ('DeclRefExpr', 'ArraySubscriptExpr', 'MemberExpr') and fe.is_float_type(x):
                 return True
+            if x.get('kind') == 'ArraySubscriptExpr' and getattr(self, 'locals_ok', False):
+                b_ = strip(kids(x)[0])
+                if b_.get('kind') == 'MemberExpr' and b_.get('name') == 'data':
+                    return True        # a test on a stored count / label
         return False
 
     # ---- statements
@@ -269,9 +275,15 @@ class Extractor:
                 # data filter: both arms are walked; constant stores / `+ 0` updates are dropped by emit_filtered
                 n0 = len(self.contribs)
                 a0 = {kk: list(v) for kk, v in self.acc.items()}
-                self.stmt(t, loops, ienv, dict(fenv))
-                if e is not None:
-                    self.stmt(e, loops, ienv, dict(fenv))
+                for arm in (t, e):
+                    if arm is None:
+                        continue
+                    try:
+                        self.stmt(arm, loops, dict(ienv), dict(fenv))
+                    except Unsupported as ex_:
+                        if not getattr(self, 'locals_ok', False):
+                            raise
+                        self.skipped_arms = getattr(self, 'skipped_arms', []) + [(arm, str(ex_))]
                 new = self.contribs[n0:]
                 live = [x for x in new if any('[' in a for a in x.term.atoms())]
                 self.contribs[n0:] = live if live else new[:1]
@@ -357,6 +369,15 @@ class Extractor:
                 self.store(cr[0], cr[1], s0['opcode'], kids(s0)[1], loops, ienv, fenv, s0)
                 return
             l0 = strip(l)
+            if l0.get('kind') == 'DeclRefExpr' and not fe.is_float_type(l0) and getattr(self, 'locals_ok', False) and s0.get('opcode') == '=':
+                cr2 = self.cell_ref(kids(s0)[1], ienv)
+                if cr2:
+                    # an index read from a container (label of row i): a symbolic index atom
+                    ienv[l0['referencedDecl'].get('name')] = Poly.atom('%s[%s]' % (cr2[0], ']['.join(str(x) for x in cr2[1])))
+                else:
+                    ienv.pop(l0['referencedDecl'].get('name'), None)
+                    self.opaque_ints = getattr(self, 'opaque_ints', set()) | {l0['referencedDecl'].get('name')}
+                return
             if l0.get('kind') == 'DeclRefExpr':
                 if fe.is_float_type(l0):
                     rhs_ = kids(s0)[1]
@@ -457,7 +478,7 @@ class Extractor:
                 for term, lp, nd in self.acc[x0['referencedDecl'].get('name')]:
                     self.emit((arr, idx), '+=', term / sc if r0['opcode'] == '/' else term * sc, lp, nd)
                 return
-        if op not in ('=', '+='):
+        if op not in ('=', '+=', '/=', '*='):
             raise Unsupported('store operator %s' % op)
         self.emit((arr, idx), op, self.rat(rhs, ienv, fenv), loops, node)
 
